@@ -36,6 +36,7 @@ struct Found {
     col: usize, // 1-based, in chars (as column!())
     sig: String,
     sig_hash: u64,
+    arity: usize,
     db_type: String,
     db_type_local: bool, // a struct of that name is defined in the same module
     args: String,        // attribute arguments, e.g. "raw"
@@ -136,6 +137,7 @@ impl Collector {
             col: start.column + 1,
             sig: s,
             sig_hash: h.finish(),
+            arity: sig.inputs.len().saturating_sub(1),
             db_type,
             db_type_local: false,
             args,
@@ -231,8 +233,7 @@ fn textual_memo_count(text: &str) -> usize {
             Some(i) => &line[..i],
             None => line,
         };
-        n += code.matches("#[memo]").count() + code.matches("#[memo(").count() + code.matches("::memo]").count()
-            + code.matches("::memo(").count();
+        n += code.matches("#[memo]").count() + code.matches("#[memo(").count() + code.matches("::memo]").count();
     }
     n
 }
@@ -523,13 +524,13 @@ pub fn scan(_input: TokenStream) -> TokenStream {
         let (krate, kind, root, file, module_path) = (&s.krate, &s.kind, &s.root, &s.file, &s.module_path);
         let container = s.f.container.join("::");
         let (name, sig, sig_hash, db_type, args) = (&s.f.name, &s.f.sig, s.f.sig_hash, &s.f.db_type, &s.f.args);
-        let (line, col) = (s.f.line as u32, s.f.col as u32);
+        let (line, col, arity) = (s.f.line as u32, s.f.col as u32, s.f.arity as u32);
         let db_type_local = s.f.db_type_local;
         let other_attrs = s.f.other_attrs.join(",");
         let cfgs = s.f.cfgs.join(" && ");
         quote! {
             Site { krate: #krate, kind: #kind, root: #root, file: #file, module_path: #module_path,
-                   container: #container, name: #name, line: #line, col: #col, sig: #sig, sig_hash: #sig_hash,
+                   container: #container, name: #name, line: #line, col: #col, sig: #sig, sig_hash: #sig_hash, arity: #arity,
                    db_type: #db_type, db_type_local: #db_type_local, args: #args, other_attrs: #other_attrs, cfgs: #cfgs }
         }
     });
